@@ -295,10 +295,13 @@ def run(ctx):
     check_call_arguments(ctx, "C03.ARGS", "C03")
     from ..rules_common import check_effect_tables
     check_effect_tables(ctx, "C03")
-    from ..rules_common import check_region_table, statements_mentioning
+    from ..rules_common import check_region_table, statements_mentioning, ifs_testing
     check_region_table(ctx, "C03.TABLE", init, statements_mentioning({"yday", "yearday", "nlyearday"}),
                        "yearday / nlyearday become month + day through the cumulative month-end table; yearday past the 59th day carries leapdays = -1",
                        "__init__: yearday conversion")
+    check_region_table(ctx, "C03.TABLE", init, ifs_testing({"weekday", "integer_types"}),
+                       "an integer weekday argument (0 = Monday included) is replaced by the weekday object of that index, anything else is stored as given",
+                       "__init__: weekday argument")
     from ..rules_common import check_presence_tests, ARG_SCOPE
     check_presence_tests(ctx, "C03.PRESENCE", classes=ARG_SCOPE.get("C03", []))
 
